@@ -57,6 +57,10 @@ def run(ctx, rep):
     common.check_duplicate_operands(ctx, rep, "R8.8", ["cobyqa.problem:Problem.__init__", "cobyqa.problem:BoundConstraints.__init__", "cobyqa.problem:LinearConstraints.__init__", "cobyqa.main:minimize"])
     from . import c10
     c10.run(ctx, Renamed(rep, to="R8.8"), r1="R8.8", only_transform=True)
+    rep.rule("R8.9", "reduced-space points only meet reduced-space bounds/matrices (a dimension mismatch raises inside numpy and escapes) (see C02 R2.5)")
+    from .. import spaces
+    if spaces.check_reduced_operands(ctx, Renamed(rep, to="R8.9"), "R8.9") < 8:
+        raise AnalysisError("reduced-space operations not found")
 
 
 def r81(ctx, rep):
